@@ -11,6 +11,7 @@ Fixpoint wf_body (d : list N) (b : body) : Prop :=
   match b with
   | BSrc _ => True
   | BMerge b1 d1 b2 d2 => incl d1 d /\ incl d2 d /\ wf_body d1 b1 /\ wf_body d2 b2
+  | BInd _ => False          (* no indirection in front of the thunk of a field *)
   end.
 
 (* a thunk of record instance [rid] whose field names are [keys]: revertible thunks are cached on
@@ -35,10 +36,10 @@ Definition coherent (st : state) (rid : nat) : Prop :=
 (* the configurations the theorems are about: the Rust code as it is, with any dependency analysis
    that returns exactly the variables occurring in a body (part A proves this of free_vars.rs) *)
 Definition faithful (c : cfg) : Prop :=
-  c_unknown c = false /\ c_revert c = RevFresh /\ c_patch c = PAssert /\
+  c_unknown c = false /\ c_revert c = RevFresh /\ c_patch c = PAssert /\ c_wrap_dyn c = false /\
   (forall t x, In x (c_an c t) <-> In x (vars t)).
 
-Lemma cfg_real_faithful : faithful cfg_real.
+Lemma cfg_fixed_faithful : faithful cfg_fixed.
 Proof. repeat split; auto. Qed.
 
 (* ------------------------------------------------------------------------- abstraction *)
@@ -46,6 +47,7 @@ Fixpoint abs_body (d : list N) (b : body) : sbody :=
   match b with
   | BSrc t => SLeaf d t
   | BMerge b1 d1 b2 d2 => SMerge2 (abs_body d1 b1) (abs_body d2 b2)
+  | BInd _ => SLeaf [] (Num 0)          (* outside the invariant *)
   end.
 
 Definition abs_thunk (th : thunk) : sbody :=
@@ -125,39 +127,41 @@ Proof.
   apply mem_In in E. apply H in E. apply mem_In in E. rewrite E. reflexivity.
 Qed.
 
-Lemma ievalb_ext : forall b rho rho', (forall x, rho x = rho' x) -> ievalb rho b = ievalb rho' b.
+Lemma ievalb_ext : forall ind b rho rho', (forall x, rho x = rho' x) -> ievalb ind rho b = ievalb ind rho' b.
 Proof.
-  induction b as [t|b1 IH1 d1 b2 IH2 d2]; intros rho rho' H; cbn [ievalb].
+  intros ind. induction b as [t|b1 IH1 d1 b2 IH2 d2|tid]; intros rho rho' H; cbn [ievalb].
   - apply eval_tm_ext. intros x _. apply H.
   - rewrite (IH1 (scoped d1 rho) (scoped d1 rho')), (IH2 (scoped d2 rho) (scoped d2 rho')); [reflexivity| |];
       intros x; unfold scoped; rewrite H; reflexivity.
+  - reflexivity.
 Qed.
 
 (* a body evaluated by the mechanism under the stacked filters is the abstracted definition
    evaluated by the specification *)
-Lemma ievalb_abs : forall b d rho look,
+Lemma ievalb_abs : forall ind b d rho look,
   wf_body d b -> (forall x, rho x = scoped d look x) ->
-  ievalb rho b = seval_body look (abs_body d b).
+  ievalb ind rho b = seval_body look (abs_body d b).
 Proof.
-  induction b as [t|b1 IH1 d1 b2 IH2 d2]; intros d rho look Hwf Hrho; cbn [ievalb abs_body seval_body].
+  intros ind. induction b as [t|b1 IH1 d1 b2 IH2 d2|tid]; intros d rho look Hwf Hrho; cbn [ievalb abs_body seval_body].
   - apply eval_tm_ext. intros x _. apply Hrho.
   - cbn [wf_body] in Hwf. destruct Hwf as (Hi1 & Hi2 & Hw1 & Hw2).
     rewrite (IH1 d1 (scoped d1 rho) look Hw1), (IH2 d2 (scoped d2 rho) look Hw2); [reflexivity| |].
     + intros x. unfold scoped at 1. rewrite Hrho. fold (scoped d2 (scoped d look) x). apply scoped_incl. exact Hi2.
     + intros x. unfold scoped at 1. rewrite Hrho. fold (scoped d1 (scoped d look) x). apply scoped_incl. exact Hi1.
+  - destruct Hwf.
 Qed.
 
 (* ------------------------------------------------------------------------- refinement of reads *)
 Theorem override_refines : forall st rid, coherent st rid ->
   forall fuel k, ifield fuel st rid k = sfield fuel (abs st rid) k.
 Proof.
-  intros st rid (r & Hr & Hnd & Hok). unfold abs. rewrite Hr.
-  induction fuel as [|n IH]; intros k; cbn [ifield sfield]; [reflexivity|].
-  rewrite Hr, slookup_abs_rec.
-  destruct (ilookup k r) as [f|] eqn:El; cbn [option_map]; [|reflexivity].
-  specialize (Hok k f (ilookup_In _ _ _ El)). unfold fld_ok in Hok. cbn [abs_fld sval].
-  destruct (ival f) as [tid|]; [|reflexivity].
-  destruct Hok as (th & Hth & Htok). rewrite Hth. cbn [option_map].
+  intros st rid (r & Hr & Hnd & Hok). unfold abs. rewrite Hr. unfold ifield.
+  induction fuel as [|n IH]; intros k; unfold field_via; cbn [sfield]; rewrite Hr, slookup_abs_rec;
+    (destruct (ilookup k r) as [f|] eqn:El; cbn [option_map]; [|reflexivity]);
+    specialize (Hok k f (ilookup_In _ _ _ El)); unfold fld_ok in Hok; cbn [abs_fld sval];
+    (destruct (ival f) as [tid|]; [|reflexivity]);
+    destruct Hok as (th & Hth & Htok); rewrite Hth; cbn [option_map ithunk]; [reflexivity|].
+  rewrite Hth.
   destruct th as [b|o [d|] [c|]]; cbn [thunk_ok] in Htok; try contradiction; cbn [abs_thunk].
   - apply ievalb_abs; [exact Htok|]. intros x. reflexivity.
   - destruct Htok as (-> & Hwf & _). apply ievalb_abs; [exact Hwf|].
